@@ -83,7 +83,8 @@ pub enum Variant {
     Rc11Minus,
     /// RC11 with one operational restriction, used only to *attribute* known findings: a
     /// read-modify-write (and a failing compare_exchange) reads the store that is last in
-    /// modification order among the stores generated so far (what loom does, defects D12/D15)
+    /// modification order among the stores generated so far, and a store generated after a
+    /// read-modify-write is later in modification order than it (what loom does, defects D12/D15)
     Rc11RmwNewest,
     /// RC11 plus a total order of the SeqCst fences inside happens-before, used only to
     /// *attribute* known findings of C04 (defect D11)
@@ -232,6 +233,11 @@ fn succ(p: &Program, s: &XSt, t: usize, variant: Variant) -> Vec<XSt> {
             if nxt.k == EK::U && rf_key(s, nxt) == s.mo[loc][pos - 1] {
                 return false;
             }
+        }
+        // attribution variants for D12/D15: loom orders every store after every
+        // read-modify-write of the location that was executed before it
+        if matches!(variant, Variant::Rc11RmwNewest | Variant::Rc11RmwAndScNewest) && s.mo[loc][pos..].iter().any(|k| find(s, *k).k == EK::U) {
+            return false;
         }
         true
     };
